@@ -12,7 +12,7 @@ IMPORTS = ("From Coq Require Import ZArith List.\n"
 CASE_T = "C01.Corr.case"
 PROPS = ["C01/Props.v"]
 CLAUSE = {1: "out-of-domain-readable", 2: "other-attribute-changed", 3: "failed-assignment-had-effect",
-          4: "not-the-documented-conversion", 5: "foreign-exception"}
+          4: "not-the-documented-conversion", 5: "foreign-exception", 6: "dynamic-range-out-of-bounds"}
 RELATION = "C01.Corr.corr_codes (Model.step = setattr / trait_set / constructor on every step)"
 HOW = {"Attr": "Attr", "TraitSet": "TraitSet", "Ctor": "Ctor"}
 
@@ -83,6 +83,8 @@ def values_for(d, rnd, k):
         pool = pv.tuple_values(rnd, 30, 2) + pool
     if "DList" in kinds:
         pool = pv.list_values(rnd, 10) * 2 + pool[:20]
+    if "DDict" in kinds:
+        pool = pv.dict_values(rnd, 10) * 2 + pool[:20]
     if "DArray" in kinds:        # arrays only meet Array traits (array == x is element-wise: not modelled elsewhere)
         pool = pv.ARRAY_VALUES
     return [rnd.choice(pool) for _ in range(k)]
@@ -198,7 +200,7 @@ def has_mapped_compound(d):
 
 def configs(rnd, quick):
     fixed = (pv.fast_leaves(True) + pv.int_ranges() + pv.types_() + pv.STRINGS + pv.PREFIXES + pv.ARRAYS
-             + pv.LISTS + pv.LIST_CONTAINERS
+             + pv.LISTS + pv.LIST_CONTAINERS + pv.DICTS
              + [["DUnion", [["DArray", 30, [3], 4], ["DInt"]]], ["DTuple", [["DArray", 33, None, 2], ["DInt"]]]]
              + [["DModule"], ["DTuple", []], ["DAny"],
                 ["DUnion", [["DInt"], ["DStr"]]], ["DUnion", [["DString", 0, 5, None], ["DCast", "CTInt"]]],
@@ -234,6 +236,8 @@ def gen_cases(ctx, rnd):
         vals = key_atoms if not pv.has_kind(d, "DArray") else pv.ARRAY_VALUES
         if pv.has_kind(d, "DList"):
             vals = pv.list_values(rnd, 4)
+        if pv.has_kind(d, "DDict"):
+            vals = pv.dict_values(rnd, 4) + (pv.list_values(rnd, 0)[:6] if pv.has_kind(d, "DList") else [])
         if d[0] == "DString":          # every String configuration meets every length / regex class
             vals = pv.STRING_VALUES
         cases.append(dict(traits=[[0, d], [1, ["DInt"]]], ops=[["Attr", [[0, v]]] for v in vals]))
